@@ -22,7 +22,7 @@ CHECKS = {
         note="Trusts kernel+VM, hand model of the set algebra (tied by chargen and recipe/Alphabet() correspondence families incl. flag triples), extraction, harness. Domain: valid UTF-8 recipe strings. No axioms.",
         technique="Coq proof (set algebra on duplicate-free lists, support of the gen monad) + differential correspondence + independent Python oracle on real outputs"),
     "C04": dict(
-        text="Theorems for every word list, length, scheme and separator function: the law of what WLRecipe.Generate returns is the image under the rendering map of the PRODUCT of independent draws (capitalisation pattern, one uniform index in [0,size) per word, one fresh separator call per gap, the call inside Entropy()) — proved with a Fubini lemma for the expectation monad; every index vector has probability exactly (1/size)^L, every 'one' position 1/L, every 'random' subset (1/2)^L; the point probability of a password is exactly the product of its choices' probabilities whenever the pattern is readable (a decoder that is a left inverse of the rendering), hence all possible passwords are equally likely with a uniform separator; the premises about the kept words are derived from NewWordList under the property's title-casing premise.",
+        text="Theorems for every word list, length, scheme and separator function: the law of what WLRecipe.Generate returns is the image under the rendering map of the PRODUCT of independent draws (capitalisation pattern, one uniform index in [0,size) per word, one fresh separator call per gap, the call inside Entropy()) — proved with a Fubini lemma for the expectation monad; every index vector has probability exactly (1/size)^L, every 'one' position 1/L, every 'random' subset (1/2)^L; the point probability of a password is exactly the product of its choices' probabilities whenever the pattern is readable (a decoder that is a left inverse of the rendering), hence all possible passwords are equally likely with a uniform separator; the premises about the kept words are derived from NewWordList under the property's title-casing premise; the generator's draws are well formed (fewer than 2^32 words, Length and separator alphabets below 2^32: every preset), so by the raw-word layer of C01/C02 each of these probabilities is the limit, with an explicit error bound, of the frequency over uniform tapes of raw 32-bit words.",
         ref="§6 C04",
         note="Trusts kernel+VM, the hand model of the assembly loop (tied by the wlgen correspondence family and by complete product cells run on the real code), strings.Title as an idempotent oracle. Domain: lists without an empty entry (F7), separators satisfying sep_ok (constants and character recipes with nothing left to require: every preset, everything opgen builds). No axioms.",
         technique="Coq proof (product/Fubini theorem for the gen monad, decoder lemma, point masses) + differential correspondence + complete product-cell enumeration oracle"),
@@ -57,12 +57,12 @@ CHECKS = {
         note="Trusts kernel+VM, the model of n() (tied by the recipe correspondence family on exact integers up to length 3000), Python big-integer log2, the float tolerance. Float rounding itself is outside the proof. No axioms.",
         technique="Coq proof by induction on the required-set list (filter/product commutation) + exact-integer differential correspondence + brute-force/inclusion-exclusion oracle"),
     "C13": dict(
-        text="Theorems: the exact decision structure of Generate (bad length, empty alphabet, pre-flight refusal, at most MaxTrials attempts); every reachable outcome is a satisfying password or one of four errors with its exact cause, never a generator panic; SuccessProbability's exact value is the satisfying fraction count/a^L; the guard band of the default budget (>= 1/10 never refused, <= 9/100 always) and equality of the fast and exact decisions; wordlist recipes: missing/empty list and bad length give errors (see C05/C13wl theorems).",
+        text="Theorems: the exact decision structure of Generate (bad length, empty alphabet, pre-flight refusal, at most MaxTrials attempts); every reachable outcome is a satisfying password or one of four errors with its exact cause, never a generator panic; SuccessProbability's exact value is the satisfying fraction count/a^L; the guard band of the default budget (>= 1/10 never refused, <= 9/100 always) and equality of the fast and exact decisions; wordlist recipes: missing/empty list and bad length give errors, and on no stream of raw words does the generator draw from zero alternatives (every bound it draws over lies in [1, 2^32)).",
         ref="§6 C13, §8 F1/F5",
         note="Trusts kernel+VM, hand model (tied by chargen/wlgen families with budgets, zero-valued recipes, exhaustion and last-attempt tapes), exact-rational vs float64 decision compared except within 0.5% of the threshold (counted as borderline). No axioms.",
         technique="Coq proof (case analysis of the generator term, big-integer guard band by vm_compute facts) + differential correspondence + exact-arithmetic decision oracle"),
     "C11": dict(
-        text="Theorems for every non-empty token sequence of valid-UTF-8 values of at most 255 characters (any type bytes, empty values included): MakeIndices succeeds, Tokenize(String(), index) returns exactly the tokens, and the index has the documented size per kind; a token over 255 characters is an error; an index is never lossy; the kind conditions are characterised; the pinned byte-length encoder is refuted on concrete witnesses (F3, F3b).",
+        text="Theorems for every non-empty token sequence of valid-UTF-8 values of at most 255 characters (any type bytes, empty values included): MakeIndices succeeds, Tokenize(String(), index) returns exactly the tokens, and the index has the documented size per kind; a token over 255 characters is an error; an index is never lossy; the kind conditions are characterised; composed with the generators: every character password of a recipe over text has the one-byte index and decodes exactly, every wordlist password over text words/separators of at most 255 characters encodes and decodes exactly, with 2*Length bytes for a non-empty constant separator and at most Length+1 for the empty one; the pinned byte-length encoder is refuted on concrete witnesses (F3, F3b).",
         ref="§6 C11, §8 F3/F3b",
         note="Trusts kernel+VM, the transcription of token.go (tied by the token family and by the round trip carried in every generated password of every family), the UTF-8 segmentation model explode (fuzzed through tokenize on invalid/truncated input). Entropy pass-through is compared, not proved. Domain: text (valid UTF-8) values; invalid bytes can fuse across token boundaries. No axioms.",
         technique="Coq proof (explode_app on valid UTF-8, slice round-trip lemmas per kind) + differential correspondence + direct round-trip oracle"),
